@@ -5,6 +5,7 @@ checkpoint the chain ever published for signing is archived for ever, and eviden
 for a checkpoint that is not archived. Part B (prune-time jailing) is `Model/Prune` below.
 -/
 import PalomaModel.Props.C01
+import PalomaModel.Gen.Atomicity
 import PalomaModel.Model.Libcons
 
 namespace Paloma.Bridge
@@ -246,6 +247,16 @@ theorem issued_subset_archive (ops : List Op13) : ∀ c ∈ (run13 ops).issued, 
   rw [hi] at hc
   rw [ha]
   simpa [St.init] using hc
+
+/-- **archive_written_where_checkpoints_are_issued.** In the current source (regenerated table) the
+two functions that store a batch's signing bytes — the build and the gas-estimate re-issue — both
+archive the checkpoint, and nothing but the archive's own setter / getter touches its store key
+(so an archived checkpoint is never deleted). -/
+theorem archive_written_where_checkpoints_are_issued :
+    (Paloma.Gen.Atomicity.archiveSetters.contains "x/skyway/keeper.Keeper.BuildOutgoingTXBatch" &&
+     Paloma.Gen.Atomicity.archiveSetters.contains "x/skyway/keeper.Keeper.UpdateBatchGasEstimate" &&
+     Paloma.Gen.Atomicity.archiveKeyUsers ==
+       ["x/skyway/keeper.Keeper.GetPastEthSignatureCheckpoint", "x/skyway/keeper.Keeper.SetPastEthSignatureCheckpoint"]) = true := by decide
 
 /-- **evidence_jails_only_unissued.** Evidence changes the jailed set only for a checkpoint that
 is not archived, hence (previous theorem) one the chain never issued. -/
